@@ -16,6 +16,15 @@ CHECKS = {
              'longdouble shadow; launch power <= +10 dBm.', ref='3/C01'),
 }
 
+CHECKS['C02'] = dict(
+    technique='runtime monitor: per-element, per-channel monotonicity checker over recorded crossings; bit-identity '
+              'of the shares across passive elements and attenuation operations; differential con_out run',
+    text='Every element crossing of every propagated path is compared before/after per channel; passive elements '
+         'and every loss operation must leave the three shares bit-identical. Exploration: held on the crossings '
+         'observed.',
+    note='Trusts the snapshots taken by the class-level __call__ wrappers; 1e-12 relative tolerance on inverse ratios.',
+    ref='3/C02')
+
 NOT_APPLICABLE = {
 }
 
